@@ -353,6 +353,10 @@ pub(crate) fn compute_contract_weights(
                 }
                 Ok((earliest_epoch_id, weight)) => {
                     // some weight was recorded for the contract in the past, start from there
+                    // (when that is at or after start_from_epoch, it is in effect at that epoch)
+                    if earliest_epoch_id >= *start_from_epoch {
+                        contract_weights.insert(earliest_epoch_id, weight);
+                    }
                     (earliest_epoch_id, weight)
                 }
             }
